@@ -41,7 +41,7 @@ pub axiom fn axiom_nb_sub(a: Seq<Coin>, b: Seq<Coin>)
 
 // the three functions model results of executions that returned a Vec: their results fit a Vec
 pub axiom fn axiom_nb_len(a: Seq<Coin>, b: Seq<Coin>)
-    ensures nb_normalize(a).len() <= usize::MAX, nb_add(a, b).len() <= usize::MAX, nb_sub(a, b) is Ok ==> nb_sub(a, b).unwrap().len() <= usize::MAX;
+    ensures nb_normalize(a).len() <= 0x7fff_ffff_ffff_ffff, nb_add(a, b).len() <= 0x7fff_ffff_ffff_ffff, nb_sub(a, b) is Ok ==> nb_sub(a, b).unwrap().len() <= 0x7fff_ffff_ffff_ffff;
 
 impl NativeBalance {
     #[verifier::external_body]
